@@ -186,6 +186,7 @@ struct ObjShape {
     entries: Vec<String>,  // maps: sorted (key classes, register); sequences: registers in order
     text: Option<String>,  // UTF-8 lengths of the characters of text_at
     text_width: Option<usize>, // width of text_at in the document's encoding
+    starts: Vec<usize>,    // text: start index of every addressable element (widths of the elements)
     marks: Vec<String>,    // per mark name (classes): merged coverage intervals, sorted
     marks_strict: Vec<String>, // marks_at as returned: (start, end, name classes, value shape), sorted
 }
@@ -231,7 +232,7 @@ fn state_shape(doc: &Automerge, cands: &[(ObjId, ObjType)], heads: &[ChangeHash]
             Err(e) => return Err(format!("object_type({}) failed: {}", id, e)),
         };
         let measure = doc.length_at(id, heads);
-        let mut sh = ObjShape { ty: format!("{:?}", ty), measure, entries: vec![], text: None, text_width: None, marks: vec![], marks_strict: vec![] };
+        let mut sh = ObjShape { ty: format!("{:?}", ty), measure, entries: vec![], text: None, text_width: None, starts: vec![], marks: vec![], marks_strict: vec![] };
         match ty {
             ObjType::Map | ObjType::Table => {
                 let keys: Vec<String> = doc.keys_at(id, heads).collect();
@@ -248,16 +249,18 @@ fn state_shape(doc: &Automerge, cands: &[(ObjId, ObjType)], heads: &[ChangeHash]
                 }
             }
             ObjType::Text => {
-                // one entry per addressable element: the element starts reported by the range iterator
-                let starts: Vec<usize> = doc.list_range_at(id, .., heads).map(|it| it.index).collect();
-                let mut prev: Option<usize> = None;
-                for s in starts {
-                    if prev == Some(s) {
+                // one entry per addressable element: walk the width indexes; a new element begins where the
+                // ids of the register change (zero-width elements cannot be addressed)
+                let mut prev: Option<Vec<(u64, Vec<u8>)>> = None;
+                for i in 0..measure {
+                    let vals = doc.get_all_at(id, i, heads).map_err(|e| format!("get_all_at({},{}): {}", id, i, e))?;
+                    let mut ids: Vec<(u64, Vec<u8>)> = vals.iter().map(|(_, x)| exid_key(x)).collect();
+                    ids.sort();
+                    if prev.as_ref() == Some(&ids) {
                         continue;
                     }
-                    prev = Some(s);
-                    let vals = doc.get_all_at(id, s, heads).map_err(|e| format!("get_all_at({},{}): {}", id, s, e))?;
-                    // (the start index is not part of the entry: widths are compared through length_at / text_at)
+                    prev = Some(ids);
+                    sh.starts.push(i);
                     sh.entries.push(register_shape(vals, &index));
                 }
                 let t = doc.text_at(id, heads).map_err(|e| format!("text_at({}): {}", id, e))?;
@@ -285,7 +288,8 @@ fn state_shape(doc: &Automerge, cands: &[(ObjId, ObjType)], heads: &[ChangeHash]
 fn diff_category(a: &ObjShape, b: &ObjShape) -> Option<&'static str> {
     if a.ty != b.ty {
         Some("object-type")
-    } else if a.ty == "Text" && (a.measure != b.measure || a.text_width != b.text_width) {
+    } else if a.ty == "Text" && (a.measure != b.measure || a.text_width != b.text_width || a.starts != b.starts) {
+        // (start positions: the width of every single element, not just the total)
         Some("text-width")
     } else if a.ty == "List" && a.measure != b.measure {
         Some("list-length")
@@ -701,6 +705,7 @@ fn build_own(rng: &mut Rng, enc: TextEncoding, profile: usize, n_replicas: usize
     Hist { changes: all.get_changes(&[]), head_sets, priority, log: log.clone() }
 }
 
+/// (fixed probe: before bd9e88bf3 a control character could become a space and two keys merged)
 /// a map whose keys are all 32 ASCII control characters and all 95 printable ASCII characters, one
 /// character each, and a text marked with control-character mark names: the structural substitution
 /// must keep all of them apart
@@ -728,6 +733,39 @@ fn build_ctlkeys(rng: &mut Rng, enc: TextEncoding, log: &mut Vec<String>) -> His
     d.commit();
     head_sets.push(d.get_heads());
     Hist { changes: d.get_changes(&[]), head_sets, priority: vec![], log: log.clone() }
+}
+
+/// the history on which apply_changes, delivering one change at a time (as anonymize does), used to panic
+/// (repaired in 452d3e88a): a delete that removes the LOSING value of a conflicted text element
+fn build_delivery_probe(rng: &mut Rng, enc: TextEncoding, log: &mut Vec<String>) -> Hist {
+    log.push(format!("encoding {} profile one-at-a-time delivery probe", enc_name(enc)));
+    let lo = rng.below(100) as u8;
+    let mut a = AutoCommit::new_with_encoding(enc).with_actor(automerge::ActorId::from(vec![lo]));
+    let t = a.put_object(ROOT, "t", ObjType::Text).unwrap();
+    a.splice_text(&t, 0, 0, "xyz").unwrap();
+    a.commit();
+    let mut head_sets = vec![a.get_heads()];
+    let mut b = a.fork().with_actor(automerge::ActorId::from(vec![lo + 1 + rng.below(100) as u8]));
+    let (va, vb) = (*rng.pick(&["ab", "a", "\u{e9}\u{1F600}"]), *rng.pick(&["q", "", "zz"]));
+    a.put(&t, 1, va).unwrap();
+    a.commit();
+    b.put(&t, 1, vb).unwrap();
+    b.commit();
+    head_sets.push(a.get_heads());
+    head_sets.push(b.get_heads());
+    a.splice_text(&t, 1, 1, "").unwrap();
+    a.commit();
+    log.push(format!("A put(t,1,{:?}); B put(t,1,{:?}); A splice_text(t,1,1,\"\") knowing only its own value; merge", va, vb));
+    let mut priority = vec![];
+    let mut both = a.get_heads();
+    both.extend(b.get_heads());
+    both.sort();
+    priority.push(both);
+    a.merge(&mut b).unwrap();
+    a.put(ROOT, "later", 1).unwrap();
+    a.commit();
+    head_sets.push(a.get_heads());
+    Hist { changes: a.get_changes(&[]), head_sets, priority, log: log.clone() }
 }
 
 // ---------------------------------------------------------------- checks
@@ -1152,6 +1190,10 @@ fn check_history(rng: &mut Rng, rep: &mut Report, cw: &mut CaseWriter, ui: usize
                     (Ok(Ok(a)), Ok(Ok(b))) => {
                         if let Some((oi, cat)) = a.iter().zip(b.iter()).enumerate().find_map(|(i, (x, y))| diff_category(x, y).map(|c| (i, c))) {
                             let cat = if enc == TextEncoding::GraphemeCluster && cat == "mark-coverage" { "text-width" } else { cat };
+                            if std::env::var("VERIF_ANON_DEBUG").is_ok() && cat == "registers" {
+                                eprintln!("DEBUG twice registers universe {}\n A starts {:?}\n B starts {:?}\n A entries {:?}\n B entries {:?}\n A text {:?}\n B text {:?}", ui, a[oi].starts, b[oi].starts, a[oi].entries, b[oi].entries,
+                                    anon.text_at(&k2[oi].0, &hs2), anon2.text_at(&k3[oi].0, &hs3));
+                            }
                             fail_capped(rep, &format!("anon|{}twice|state-shape|{}|{}", tag, cat, enc_name(enc)),
                                 &format!("anonymize(anonymize(doc)): object #{} differs in {}: {}", oi, cat, describe_diff(&a[oi], &b[oi], cat)), replay.clone());
                         } else if a.len() != b.len() {
@@ -1227,6 +1269,16 @@ pub fn run(rng: &mut Rng, tier: &str, out: &str) -> Report {
         let mut log: Vec<String> = vec![];
         match guard(|| build_ctlkeys(rng, enc, &mut log)) {
             Ok(h) => check_history(rng, &mut rep, &mut cw, ui, "ctlkeys", enc, &h, false, max_heads),
+            Err(_) => rep.count("generator_panics"),
+        }
+        ui += 1;
+    }
+    // ---------- the one-at-a-time delivery probe (anonymize used to panic on it)
+    for k in 0..(if thorough { 24 } else { 8 }) {
+        let enc = encs[k % 4];
+        let mut log: Vec<String> = vec![];
+        match guard(|| build_delivery_probe(rng, enc, &mut log)) {
+            Ok(h) => check_history(rng, &mut rep, &mut cw, ui, "delivery", enc, &h, k < 3, max_heads),
             Err(_) => rep.count("generator_panics"),
         }
         ui += 1;
